@@ -18,8 +18,8 @@ def costExtrapolateNext (w : List Nat) : Nat :=
   ((minList? ((List.range (n / 2 + 1)).map fun k => w.getD k 0 + w.getD (n - k - 1) 0)).getD 0)
 
 /-- `wcet::Curve::extrapolate(n)`: if there are at least three samples, push
-`extrapolate_next` while `len < n - 1`.  The guard `n ≥ 1` (`n - 1` on `usize`) is checked
-by the caller (`costExtrapolateGuard`). -/
+`extrapolate_next` while `len + 1 < n` (equivalently `len < n - 1` in truncated subtraction;
+the code used `n - 1` on `usize` until the `fix:` commit e6aaf1d, finding F5). -/
 def costExtrapolate (w : List Nat) (n : Nat) : Nat → List Nat
   | 0 => w
   | fuel + 1 =>
